@@ -31,8 +31,11 @@ ASSUMPTIONS = [
     "model says there is) client-side state; a refusal (EncryptionRequired/CryptoRequired) => no cookie with the "
     "session name in ResponseCookies, and the refusal must be warranted by the configuration where the biscotti "
     "documentation is definite (primary algorithm protects outgoing cookies, fallbacks never do)",
-    "a removal cookie for an invalidated session is not a session cookie carrying state: nothing is asserted about "
-    "its protection",
+    "a removal cookie for an invalidated session (explicit invalidate(), or a missing record under the reject "
+    "policy) is not a session cookie carrying state: nothing is asserted about its protection, nor about "
+    "Secure/HttpOnly/SameSite/Max-Age; but its name, Domain and Path must equal the configured ones, on the "
+    "ResponseCookie and on the wire (a browser only removes the cookie with the same name/domain/path); a "
+    "removal cookie = empty value in ResponseCookies + Expires in the past or Max-Age<=0 on the wire",
     "attributes: name, domain, path, SameSite, Secure, HttpOnly equal the configuration both on the ResponseCookie "
     "and on the wire; Max-Age = state TTL iff the kind is persistent, neither Max-Age nor Expires otherwise; a "
     "`Secure` attribute that biscotti adds on its own for SameSite=None is not counted as a mismatch",
@@ -68,4 +71,5 @@ def run(ctx):
                          "count": cov.get("configs_covered")}
     cov["session_cookies_checked"] = cov.get("c12_session_cookies_checked", 0)
     cov["refusals_checked"] = cov.get("refusals_checked", 0)
+    cov["removal_cookies_checked"] = cov.get("c12_removal_cookies_scope_checked", 0)
     ctx.finish(cov, ASSUMPTIONS, require_nontrivial=not ctx.replay)
